@@ -1,5 +1,6 @@
 import BufModel.Disk
 import BufProofs.Lemmas.BucketLemmas
+import BufProofs.Lemmas.ArchiveLemmas
 /-
   Lemmas for the disk-bucket tree model: on prefix-free histories the tree behaves like the
   memory bucket.
@@ -174,5 +175,312 @@ theorem treeInv_empty (U : List Key) : TreeInv U empty := by
   constructor
   · intro kv h; simp [empty] at h
   · intro x h; simp [empty] at h
+
+
+/-! ### The mixed-kind walk / copy the C14 driver runs, tied to `rWalk` / `rCopy` -/
+
+theorem unmapPartial_none (p : Str) (l out : List (Str × Content)) :
+    unmapPartial p l = (out, none) ↔ unmapAll p l = .ok out := by
+  induction l generalizing out with
+  | nil => simp [unmapPartial, unmapAll, eq_comm]
+  | cons kv rest ih =>
+    obtain ⟨k, v⟩ := kv
+    unfold unmapPartial unmapAll
+    cases hu : unmapPrefix p k with
+    | error e => simp
+    | ok o =>
+      cases o with
+      | none => simpa using ih out
+      | some r =>
+        simp only
+        cases hr : unmapPartial p rest with
+        | mk o e =>
+          cases e with
+          | some er =>
+            have : ∀ out', unmapAll p rest ≠ .ok out' := by
+              intro out' h
+              have := (ih out').mpr h
+              rw [hr] at this; cases this
+            cases hua : unmapAll p rest with
+            | error e' => simp
+            | ok out' => exact absurd hua (this out')
+          | none =>
+            have := (ih o).mp hr
+            rw [this]
+            simp [eq_comm]
+
+theorem mergePartial_none (seen l out : List (Str × Content)) :
+    mergePartial seen l = (out, none) ↔ mergeMulti seen l = .ok out := by
+  induction l generalizing out with
+  | nil => simp [mergePartial, mergeMulti, eq_comm]
+  | cons kv rest ih =>
+    unfold mergePartial mergeMulti
+    by_cases hs : hasKey seen kv.1 = true
+    · simp [hs]
+    · simp only [hs, Bool.false_eq_true, if_false]
+      cases hr : mergePartial seen rest with
+      | mk o e =>
+        cases e with
+        | some er =>
+          have : ∀ out', mergeMulti seen rest ≠ .ok out' := by
+            intro out' h
+            have := (ih out').mpr h
+            rw [hr] at this; cases this
+          cases hua : mergeMulti seen rest with
+          | error e' => simp
+          | ok out' => exact absurd hua (this out')
+        | none =>
+          have := (ih o).mp hr
+          rw [this]
+          simp [eq_comm]
+
+/-- Whenever the streaming walk completes (with any mix of disk bases) it has visited exactly
+    the list `rWalk` computes. -/
+theorem rWalkD_ok (flags : List Bool) (e : BExpr) (bs : Bases) (pfx : Str)
+    (objs : List (Str × Content)) (h : rWalkD flags e bs pfx = (objs, none)) : rWalk e bs pfx = .ok objs := by
+  induction e generalizing pfx objs with
+  | base i =>
+    simp only [rWalkD] at h
+    split at h
+    · cases h
+    · simp only [rWalk]
+      cases hm : memWalk (bs.get i) pfx with
+      | error e => rw [hm] at h; cases h
+      | ok l => rw [hm] at h; injection h with h1 _; rw [h1]
+  | pre p b ih =>
+    simp only [rWalkD] at h
+    simp only [rWalk]
+    cases hnv : normalizeAndValidate pfx with
+    | error e => rw [hnv] at h; cases h
+    | ok q =>
+      rw [hnv] at h; simp only at h ⊢
+      cases hw : rWalkD flags b bs (join [p, q]) with
+      | mk il ie =>
+        rw [hw] at h
+        cases hu : unmapPartial p il with
+        | mk ol oe =>
+          rw [hu] at h
+          injection h with h1 h2
+          cases oe with
+          | some ue => cases h2
+          | none =>
+            simp only at h2
+            subst h2; subst h1
+            rw [ih _ _ hw]
+            exact (unmapPartial_none p il ol).mp hu
+  | filt f b ih =>
+    simp only [rWalkD] at h
+    simp only [rWalk]
+    cases hnv : normalizeAndValidate pfx with
+    | error e => rw [hnv] at h; cases h
+    | ok q =>
+      rw [hnv] at h; simp only at h ⊢
+      cases hw : rWalkD flags b bs q with
+      | mk il ie =>
+        rw [hw] at h
+        injection h with h1 h2
+        simp only at h2; subst h2
+        rw [ih _ _ hw, ← h1]
+  | multi a b iha ihb =>
+    simp only [rWalkD] at h
+    simp only [rWalk]
+    cases hwa : rWalkD flags a bs pfx with
+    | mk la ea =>
+      rw [hwa] at h
+      cases ea with
+      | some e => cases h
+      | none =>
+        simp only at h
+        cases hwb : rWalkD flags b bs pfx with
+        | mk lb eb =>
+          rw [hwb] at h
+          cases hm : mergePartial la lb with
+          | mk ol oe =>
+            rw [hm] at h
+            injection h with h1 h2
+            cases oe with
+            | some em => cases h2
+            | none =>
+              simp only at h2; subst h2
+              rw [iha _ _ hwa, ihb _ _ hwb]
+              simp only
+              rw [(mergePartial_none la lb ol).mp hm, ← h1]
+  | overlay a b iha ihb =>
+    simp only [rWalkD] at h
+    simp only [rWalk]
+    cases hwa : rWalkD flags a bs pfx with
+    | mk la ea =>
+      rw [hwa] at h
+      cases ea with
+      | some e => cases h
+      | none =>
+        simp only at h
+        cases hwb : rWalkD flags b bs pfx with
+        | mk lb eb =>
+          rw [hwb] at h
+          injection h with h1 h2
+          simp only at h2; subst h2
+          rw [iha _ _ hwa, ihb _ _ hwb, ← h1]
+  | strip b ih =>
+    simp only [rWalkD] at h
+    simp only [rWalk]; exact ih _ _ h
+
+/-- With no disk base the streaming walk completes whenever `rWalk` succeeds, with the same
+    list: on memory bases the two walks have the same successful results. -/
+theorem rWalkD_of_rWalk_ok (flags : List Bool) (hf : ∀ i, flags.getD i false = false) (e : BExpr)
+    (bs : Bases) (pfx : Str) (objs : List (Str × Content)) (h : rWalk e bs pfx = .ok objs) :
+    rWalkD flags e bs pfx = (objs, none) := by
+  induction e generalizing pfx objs with
+  | base i =>
+    simp only [rWalk] at h
+    simp only [rWalkD, hf i, h]; simp
+  | pre p b ih =>
+    simp only [rWalk] at h
+    simp only [rWalkD]
+    cases hnv : normalizeAndValidate pfx with
+    | error e => rw [hnv] at h; cases h
+    | ok q =>
+      rw [hnv] at h; simp only at h ⊢
+      cases hw : rWalk b bs (join [p, q]) with
+      | error e => rw [hw] at h; cases h
+      | ok inner =>
+        rw [hw] at h; simp only at h
+        rw [ih _ _ hw]
+        simp only [(unmapPartial_none p inner objs).mpr h]
+  | filt f b ih =>
+    simp only [rWalk] at h
+    simp only [rWalkD]
+    cases hnv : normalizeAndValidate pfx with
+    | error e => rw [hnv] at h; cases h
+    | ok q =>
+      rw [hnv] at h; simp only at h ⊢
+      cases hw : rWalk b bs q with
+      | error e => rw [hw] at h; cases h
+      | ok inner =>
+        rw [hw] at h; injection h with h
+        rw [ih _ _ hw, ← h]
+  | multi a b iha ihb =>
+    simp only [rWalk] at h
+    simp only [rWalkD]
+    cases hwa : rWalk a bs pfx with
+    | error e => rw [hwa] at h; cases h
+    | ok oa =>
+      rw [hwa] at h; simp only at h
+      cases hwb : rWalk b bs pfx with
+      | error e => rw [hwb] at h; cases h
+      | ok ob =>
+        rw [hwb] at h; simp only at h
+        cases hm : mergeMulti oa ob with
+        | error e => rw [hm] at h; cases h
+        | ok ob' =>
+          rw [hm] at h; injection h with h
+          rw [iha _ _ hwa, ihb _ _ hwb]
+          simp only [(mergePartial_none oa ob ob').mpr hm, h]
+  | overlay a b iha ihb =>
+    simp only [rWalk] at h
+    simp only [rWalkD]
+    cases hwa : rWalk a bs pfx with
+    | error e => rw [hwa] at h; cases h
+    | ok oa =>
+      rw [hwa] at h; simp only at h
+      cases hwb : rWalk b bs pfx with
+      | error e => rw [hwb] at h; cases h
+      | ok ob =>
+        rw [hwb] at h; injection h with h
+        rw [iha _ _ hwa, ihb _ _ hwb]
+        simp only [h]
+  | strip b ih =>
+    simp only [rWalk] at h
+    simp only [rWalkD]; exact ih _ _ h
+
+/-- A successful put on a base of either kind is `memPut` on its object map. -/
+theorem basePut_files {isDisk : Bool} {d d' : Disk} {p : Str} {c : Content}
+    (h : basePut isDisk d p c = .ok d') : memPut d.files p c = .ok d'.files := by
+  unfold basePut at h
+  cases isDisk with
+  | false =>
+    simp only [Bool.false_eq_true, if_false] at h
+    cases hm : memPut d.files p c with
+    | error e => rw [hm] at h; cases h
+    | ok m' => rw [hm] at h; injection h with h; rw [← h]
+  | true =>
+    simp only [if_true] at h
+    unfold diskPut at h
+    unfold memPut
+    cases hv : validatePath p with
+    | error e => rw [hv] at h; cases h
+    | ok q =>
+      rw [hv] at h
+      simp only at h ⊢
+      split at h
+      · cases h
+      · split at h
+        · cases h
+        · injection h with h; rw [← h]
+
+theorem putAllD_files {isDisk : Bool} {objs : List (Str × Content)} :
+    ∀ {d d' : Disk}, putAllD isDisk d objs = .ok d' → putAll d.files objs = .ok d'.files := by
+  induction objs with
+  | nil => intro d d' h; simp [putAllD] at h; subst h; rfl
+  | cons o rest ih =>
+    intro d d' h
+    obtain ⟨k, v⟩ := o
+    simp only [putAllD] at h
+    cases hp : basePut isDisk d k v with
+    | error e => rw [hp] at h; cases h
+    | ok d1 =>
+      rw [hp] at h
+      simp only at h
+      simp only [putAll, basePut_files hp]
+      exact ih h
+
+/-- The copy the driver runs refines `rCopy`: whenever it succeeds (on a target of either kind,
+    with any mix of disk bases in the source) the target's object map and the count are those of
+    `rCopy` on the plain maps. -/
+theorem copyD_refines_rCopy (flags : List Bool) (e : BExpr) (he : e.WF) (bs : Bases) (hbs : BasesOK bs)
+    (t : Nat) (isDisk : Bool) (d0 d' : Disk) (n : Nat) (ht : bs.get t = d0.files)
+    (h : copyD flags e bs isDisk d0 = .ok (n, d')) :
+    rCopy e bs t = .ok (n, bs.set t d'.files) := by
+  unfold copyD at h
+  cases hw0 : rWalkD flags e bs [] with
+  | mk paths werr =>
+  rw [hw0] at h
+  cases werr with
+  | some er => cases h
+  | none =>
+    have hw : rWalkD flags e bs [] = (paths, none) := hw0
+    simp only at h
+    cases hr : readObjects e bs paths with
+    | error er => rw [hr] at h; cases h
+    | ok objs =>
+      rw [hr] at h
+      simp only at h
+      cases hp : putAllD isDisk d0 objs with
+      | error er => rw [hp] at h; cases h
+      | ok d1 =>
+        rw [hp] at h
+        injection h with h
+        injection h with h1 h2
+        subst h1; subst h2
+        have hw' := rWalkD_ok flags e bs [] paths hw
+        obtain ⟨kq, hkq, hnv, hc⟩ := rWalk_coherent e he bs hbs [] paths hw'
+        -- the per-object Get returns the walked content
+        have hget : ∀ kv ∈ paths, rGet e bs kv.1 = .ok kv.2 := by
+          intro kv hkv
+          obtain ⟨kk, hkk, hk⟩ := hc.rendered kv hkv
+          obtain ⟨c', hg⟩ := readObjects_ok_get e bs paths objs hr kv hkv
+          have hne : kk ≠ [] := by
+            intro e0; subst e0
+            rw [hk, renderKey_nil] at hg
+            exact BufModel.Archive.rGet_dot_not_ok e bs c' hg
+          have := (hc.sound kk kv.2 hkk (by rw [← hk]; exact hkv)).2 hne
+          rw [hk]; exact this
+        have : objs = paths := by
+          have := readObjects_eq e bs paths hget
+          rw [hr] at this; injection this
+        subst this
+        have hpa := putAllD_files hp
+        rw [← ht] at hpa
+        simp only [rCopy, hw', hpa]
 
 end BufModel.Disk
